@@ -13,6 +13,7 @@ import (
 	"github.com/unixpickle/model3d/model3d"
 
 	"vshim/vmap"
+	"vshim/vsched"
 )
 
 type triV = [3]model3d.Coord3D
@@ -686,4 +687,100 @@ func atlasProblemIn(m *model3d.Mesh, uvm model3d.MeshUVMap, gutters bool, lo, hi
 		}
 	}
 	return "ok"
+}
+
+// ---- SplitPlaneGraph under every priority order ----
+//
+// The flood fill that grows a chart takes triangles in the order of a caller-supplied priority and refuses a
+// triangle that would split the remaining boundary. Which refusals are needed depends on the order; the nil
+// heuristic exercises one order per mesh. Here the priority is an explorer-owned input: every permutation of
+// the triangles of small open discs is used as the decision function (n! executions per disc, the explorer's
+// deviation bound is set to n so that nothing is cut off). The discs include islands that touch the outer
+// boundary in a single vertex and are ringed by thin triangles - the shape in which accepting the wrong
+// triangle closes a loop around a hole.
+
+func splitDiscs() map[string][]triV {
+	p := model3d.XYZ
+	out := map[string][]triV{}
+	c, a, b, a1, b1 := p(0, 0, 0), p(5, 10, 0), p(-5, 10, 0), p(6, 11, 0.5), p(-6, 11, 0.25)
+	out["island-ring4"] = []triV{{c, a, b}, {c, a1, a}, {a, a1, b1}, {a, b1, b}, {c, b, b1}}
+	top := p(0, 13, 1)
+	out["island-ring5"] = []triV{{c, a, b}, {c, a1, a}, {a, a1, top}, {a, top, b}, {b, top, b1}, {c, b, b1}}
+	// a two-triangle island (quad c,a,m,b) touching the boundary at c, ringed
+	m := p(0, 16, 0.5)
+	a2, b2, m2 := p(7, 10, 0.25), p(-7, 10, 0), p(0, 19, 1)
+	out["quad-island-ring"] = []triV{{c, a, m}, {c, m, b}, {c, a2, a}, {a, a2, m2}, {a, m2, m}, {m, m2, b2}, {m, b2, b}}
+	var hex []triV
+	ctr := p(0.125, 0.0625, 0.5)
+	rim := func(i int) model3d.Coord3D {
+		i %= 6
+		ang := 2 * math.Pi * float64(i) / 6
+		return p(math.Cos(ang)*(1+0.125*float64(i%3)), math.Sin(ang), 0.0625*float64(i))
+	}
+	for i := 0; i < 6; i++ {
+		hex = append(hex, triV{ctr, rim(i), rim(i + 1)})
+	}
+	out["fan6"] = hex
+	var strip []triV
+	for i := 0; i < 3; i++ {
+		x0, y0 := p(float64(i), 0, 0.125*float64(i*i)), p(float64(i)+0.375, 1, 0.25*float64(i))
+		x1, y1 := p(float64(i+1), 0, 0.125*float64((i+1)*(i+1))), p(float64(i+1)+0.375, 1, 0.25*float64(i+1))
+		strip = append(strip, triV{x0, x1, y1}, triV{x0, y1, y0})
+	}
+	out["strip3"] = strip
+	// a triangle split 1 -> 4 with an ear on two of its sides: the middle triangle is interior
+	A, B, C := p(0, 0, 0), p(4, 0, 0.5), p(1, 3, 0.25)
+	ab, bc, ca := A.Mid(B), B.Mid(C), C.Mid(A)
+	out["split4-ears"] = []triV{{A, ab, ca}, {ab, B, bc}, {ca, bc, C}, {ab, bc, ca}, {A, p(2, -1.5, 0), ab}, {ab, p(2, -1.5, 0), B}}
+	return out
+}
+
+func init() {
+	for name, ts := range splitDiscs() {
+		if p := discProblem(ts); p != "" {
+			panic("harness: split disc " + name + " is not a disc: " + p)
+		}
+	}
+	var names []string
+	for n := range splitDiscs() {
+		names = append(names, n)
+	}
+	sort.Strings(names)
+	for _, dn := range names {
+		dn := dn
+		register(scenario{name: "split-orders:SplitPlaneGraph/" + dn, procs: 1, prop: "C18", about: "SplitPlaneGraph with every priority order over the triangles of a small disc",
+			want: func() string { return "ok" },
+			body: func() string {
+				vmap.Permute = false
+				ts := splitDiscs()[dn]
+				in := model3d.NewMesh()
+				for _, t := range ts {
+					in.Add(&model3d.Triangle{t[0], t[1], t[2]})
+				}
+				// explorer-owned permutation: rank[i] = priority of triangle i
+				left := make([]int, len(ts))
+				for i := range left {
+					left[i] = i
+				}
+				rank := map[triV]float64{}
+				for pos := 0; len(left) > 0; pos++ {
+					k := vsched.Choose(len(left), "priority")
+					rank[canonTri(ts[left[k]])] = float64(len(ts) - pos)
+					left = append(left[:k], left[k+1:]...)
+				}
+				parts := model3d.SplitPlaneGraph(in, func(t *model3d.Triangle) float64 { return rank[canonTri(triV{t[0], t[1], t[2]})] })
+				if len(parts) < 2 {
+					return fmt.Sprintf("VIOLATION split: SplitPlaneGraph of a %d-triangle disc returned %d part(s)", len(ts), len(parts))
+				}
+				if p := partitionProblem(in, parts); p != "" {
+					return "VIOLATION split: " + p
+				}
+				for i, q := range parts {
+					if p := discProblem(meshTris(q)); p != "" {
+						return fmt.Sprintf("VIOLATION split: part %d of %d (%d triangles) is not a topological disc: %s", i, len(parts), q.NumTriangles(), p)
+					}
+				}
+				return "ok"
+			}})
+	}
 }
